@@ -27,7 +27,10 @@ C5Init0 == [dataSegs |-> 0,        \* distinct data segments emitted before the 
             fresh |-> FALSE,      \* an ACK advanced una and the new head has not been retransmitted since (partial ACK / go-back-N credit)
             recover |-> -1,       \* highest offset sent when loss recovery last started (RFC 6582 "recover")
             rtoPrev |-> -1,       \* time of the last timeout retransmission if NOTHING has arrived since (the peer is silent), else -1
-            rtoGap |-> -1]        \* interval between the last two timeout retransmissions of that silent period, or -1
+            rtoGap |-> -1,        \* interval between the last two timeout retransmissions of that silent period, or -1
+            inRec |-> FALSE,      \* a fast retransmission started a recovery that no ACK >= recover has ended yet (bookkeeping for F28)
+            exitHi |-> -1]        \* highest offset on the wire when the last such recovery ended: segments below it that lie at or
+                                  \* beyond that recovery's `recover` were FIRST sent while it was in progress (known finding F28)
 
 Covers(s, off) == s[1] <= off /\ off < s[2]
 IsRetx(c, off) == \E s \in c.sent : Covers(s, off)           \* the byte at off has been on the wire before
@@ -61,8 +64,10 @@ C5EmitOK(c, off, len, t, kf7, reno) ==
 
 C5AfterEmit(c, off, len, t, emitMaxBefore) ==
   LET headRetx == IsRetx(c, off) /\ off = c.una
-      tmo == IsTimeoutRetx(c, off) IN
+      tmo == IsTimeoutRetx(c, off)
+      fast == headRetx /\ (c.needRetx = off \/ c.mayRetx) IN          \* the retransmission three duplicate ACKs call for
   [c EXCEPT !.rtoPrev = IF tmo THEN t ELSE @,
+            !.inRec = IF tmo THEN FALSE ELSE IF fast THEN TRUE ELSE @,
             !.rtoGap = IF tmo /\ c.rtoPrev >= 0 THEN t - c.rtoPrev ELSE @,
             !.dataSegs = IF c.ackedData \/ IsRetx(c, off) THEN @ ELSE @ + 1,
             !.sent = @ \cup {<<off, off + len>>},
@@ -73,7 +78,9 @@ C5AfterEmit(c, off, len, t, emitMaxBefore) ==
 \* an ACK-bearing segment arrives: a = relative ack number, llen = its logical length (data + FIN), wnd = raw window field,
 \* sentEnd = highest offset the endpoint has put on the wire (+1 once its FIN is out).  An ACK beyond sentEnd acknowledges
 \* data that was never sent: it acknowledges nothing (RFC 793 p.72: "ignore"), it is only a sign of life.
-C5AfterAck(c0, a, llen, wnd, t, sentEnd) ==
+\* kf28 = known finding F28 is tolerated: no fast retransmit is demanded for a segment first sent during a fast recovery
+\* (the stack moves its recover mark to SND.NXT-1 when the recovery ENDS); the clause itself is unchanged when kf28 is FALSE.
+C5AfterAck(c0, a, llen, wnd, t, sentEnd, kf28) ==
   LET c == [c0 EXCEPT !.rtoPrev = -1, !.rtoGap = -1]          \* something arrived: the peer is not silent
       acked == a - 1
       newly == Cardinality(Maximal({s \in c.sent : s[2] <= acked /\ s[2] > c.una}))
@@ -81,10 +88,12 @@ C5AfterAck(c0, a, llen, wnd, t, sentEnd) ==
       strict == IF wnd = c.lastWnd THEN c.dupS + 1 ELSE 0
   IN IF acked > c.una /\ acked <= sentEnd
      THEN [c EXCEPT !.una = acked, !.ackedData = TRUE, !.segsAcked = @ + newly, !.dupS = 0, !.dupL = 0, !.lastWnd = wnd,
-                    !.needRetx = -1, !.mayRetx = FALSE, !.fresh = TRUE]
+                    !.needRetx = -1, !.mayRetx = FALSE, !.fresh = TRUE,
+                    !.inRec = IF c.inRec /\ acked >= c.recover THEN FALSE ELSE @,
+                    !.exitHi = IF c.inRec /\ acked >= c.recover THEN sentEnd ELSE @]
      ELSE IF acked = c.una /\ llen = 0 /\ outstanding
      THEN [c EXCEPT !.dupL = @ + 1, !.acks = @ + 1, !.dupS = strict, !.lastWnd = wnd, !.ackedData = TRUE,
                     !.mayRetx = (@ \/ c.dupL + 1 = 3),
-                    !.needRetx = IF strict = 3 /\ acked >= c.recover THEN acked ELSE @]
+                    !.needRetx = IF strict = 3 /\ acked >= c.recover /\ ~(kf28 /\ acked < c.exitHi) THEN acked ELSE @]
      ELSE [c EXCEPT !.dupS = 0, !.lastWnd = wnd, !.ackedData = (@ \/ c.sent # {})]
 ====
